@@ -31,7 +31,11 @@ func ReadStatus(filePtr *os.File,
 ) (fileStatus FileStatusEnum, replayStatus ReplayStateEnum, owningInstanceID int64, err error) {
 	var buffer [10]byte
 	buf, _, err := Read(filePtr, buffer[:])
-	return FileStatusEnum(buf[0]), ReplayStateEnum(buf[1]), io.ToInt64(buf[2:]), err
+	if err != nil {
+		// at end of file Read returns no buffer at all: nothing to decode
+		return 0, 0, 0, err
+	}
+	return FileStatusEnum(buf[0]), ReplayStateEnum(buf[1]), io.ToInt64(buf[2:]), nil
 }
 
 // Read reads the WAL file from current position.
